@@ -205,7 +205,8 @@ Qed.
 
 (** * swap *)
 Lemma swap_ref a b : inv a -> inv b -> cap b = cap a ->
-  exists a' b', swap_m a b = Ok (a', b') /\ keeps a a' /\ contents a' = contents b.
+  exists a' b', swap_m a b = Ok (a', b') /\ keeps a a' /\ contents a' = contents b /\
+                keeps b b' /\ contents b' = contents a.
 Proof.
   intros Ia Ib Hcap. pose proof Ia as (Hc & Hla & Hsa & _). pose proof Ib as (_ & Hlb & Hsb & _).
   unfold swap_m.
@@ -221,7 +222,9 @@ Proof.
   { unfold zlen in *. rewrite app_length, firstn_length, skipn_length. lia. }
   { lia. }
   rewrite Ea. cbn [rbind]. rewrite Eb. cbn [rbind].
-  exists a', b'. split; [reflexivity|]. split; [exact Ka|].
-  rewrite Ca. rewrite firstn_le_app by (rewrite firstn_length; unfold zlen in *; lia).
-  rewrite firstn_firstn. unfold contents. f_equal. lia.
+  exists a', b'. split; [reflexivity|]. split; [exact Ka|]. split; [|split; [exact Kb|]].
+  - rewrite Ca. rewrite firstn_le_app by (rewrite firstn_length; unfold zlen in *; lia).
+    rewrite firstn_firstn. unfold contents. f_equal. lia.
+  - rewrite Cb. rewrite firstn_le_app by (rewrite firstn_length; unfold zlen in *; lia).
+    rewrite firstn_firstn. unfold contents. f_equal. lia.
 Qed.
